@@ -433,6 +433,35 @@ class AnnealResults(list):
             res = AnnealResults(res)
         return res
 
+    def __setitem__(self, index, result):
+        """__setitem__.
+
+        Set the result (or, for a slice, the results) at ``index`` and update
+        ``self.best``.
+
+        Parameters
+        ----------
+        index : int or slice.
+        result : AnnealResult object, or iterable of them for a slice.
+
+        """
+        super().__setitem__(index, result)
+        self.best = _recompute_best(self)
+
+    def __delitem__(self, index):
+        """__delitem__.
+
+        Delete the result (or, for a slice, the results) at ``index`` and
+        update ``self.best``.
+
+        Parameters
+        ----------
+        index : int or slice.
+
+        """
+        super().__delitem__(index)
+        self.best = _recompute_best(self)
+
     def clear(self):
         """clear.
 
@@ -631,7 +660,8 @@ class AnnealResults(list):
 
         """
         if isinstance(other, AnnealResults):
-            if other.best < self.best:
+            if other.best is not None and (
+                    self.best is None or other.best < self.best):
                 self.best = other.best
             return super().__iadd__(other)
 
@@ -650,7 +680,8 @@ class AnnealResults(list):
 
         """
         if isinstance(other, AnnealResults):
-            if other.best < self.best:
+            if other.best is not None and (
+                    self.best is None or other.best < self.best):
                 self.best = other.best
             super().extend(other)
         else:
